@@ -557,7 +557,7 @@ def gen_integrity_race(rng, k, payload):
         v = [0, 1, 255, 256, 0x7FFF, 0x8000, 0xFFFF, 0xAAAA, 0x5555][k % 9]
     else:
         v = 1 + k % 180
-    kind = rng.choice(["async_chg", "async_chg", "async_chg2", "sync", "timed"])
+    kind = rng.choice(["async_chg", "async_chg", "async_chg2", "async_cancel", "async_cancel", "sync", "timed"])
     wflav = rng.choice(["a", "a", "s"]) + side
     cflav = rng.choice(["s", "a"]) + ("r" if side == "s" else "s")
     if side == "s":
@@ -581,6 +581,10 @@ def gen_integrity_race(rng, k, payload):
         w = [new, {"op": "poll", "f": 0, "w": 1}, {"op": "poll", "f": 0, "w": 2}, {"op": "barrier", "ph": 1}, {"op": "poll", "f": 0, "w": 3}, {"op": "await", "f": 0, "w": 1},
              {"op": "drop_fut", "f": 0},
              # the slot is reused at once by the next operation of the same process
+             dict(new, f=1, **({"m": 189} if side == "s" else {})), {"op": "poll", "f": 1, "w": 1}, {"op": "drop_fut", "f": 1}]
+    elif kind == "async_cancel":
+        # the pending future is cancelled (dropped) in the race phase, possibly while the claimer is in the middle of the copy
+        w = [new, {"op": "poll", "f": 0, "w": 1}, {"op": "barrier", "ph": 1}, {"op": "drop_fut", "f": 0},
              dict(new, f=1, **({"m": 189} if side == "s" else {})), {"op": "poll", "f": 1, "w": 1}, {"op": "drop_fut", "f": 1}]
     elif kind == "sync":
         w = [sync, {"op": "len", "h": 0}]
@@ -914,6 +918,66 @@ def gen_lockhold(rng, combo=None):
 def lockhold_combos():
     return [(t, o) for t in ("send_timeout", "send_option_timeout", "recv_timeout")
             for o in ("len", "is_full", "clone", "try_send", "try_recv", "sender_count", "drop_spare", "is_closed")]
+
+
+LOCKBUSY_ACTORS = {
+    "drain": [[{"op": "drain_into", "h": 1, "pre": 0, "spare": 0}], [{"op": "drain_into", "h": 1, "pre": 1, "spare": 8}],
+              [{"op": "drain_into", "h": 1, "pre": 0, "spare": 1}]],
+    "try": [[{"op": "try_recv", "h": 1}], [{"op": "try_send", "h": 0, "m": 60}], [{"op": "try_send_option", "h": 0, "m": 60}],
+            [{"op": "drain_into", "h": 1, "pre": 0, "spare": 0}]],
+    "block": [[{"op": "recv", "h": 1}], [{"op": "send", "h": 0, "m": 60}], [{"op": "recv_timeout", "h": 1, "d": 400}],
+              [{"op": "send_timeout", "h": 0, "m": 60, "d": 400}], [{"op": "iter_next", "h": 1}], [{"op": "len", "h": 1}], [{"op": "close", "h": 0}]],
+}
+LOCKBUSY_THIRD = ["len", "is_full", "clone", "sender_count", "is_closed", "try_send_full", "drop_spare"]
+
+
+def gen_lockbusy(rng, actor, third):
+    """A call that has everything it needs (values buffered, room for a send) is issued while a third party is somewhere inside
+    an unrelated call on the same channel, possibly holding the channel lock (solo freeze sweep over the third party;
+    `lockspin_all`: lock attempts that fail are executed).  A blocking acquisition waits for the lock and then gives the same
+    result; only the *_realtime variants may answer 'not done'."""
+    cap = 3
+    fill = [{"op": "try_send", "h": 0, "m": 100 + j} for j in range(2)]      # 2 of 3 places used: receives and sends both succeed
+    a = json.loads(json.dumps(actor))
+    t = {"len": [{"op": "len", "h": 0}], "is_full": [{"op": "is_full", "h": 1}], "clone": [{"op": "clone", "h": 1}],
+         "sender_count": [{"op": "sender_count", "h": 1}], "is_closed": [{"op": "is_closed", "h": 0}],
+         "try_send_full": [{"op": "is_empty", "h": 1}], "drop_spare": [{"op": "drop", "h": 2}]}[third]
+    procs = [{"phase": 0, "handles": [rng.choice(["ss", "as"]), rng.choice(["sr", "ar"])], "ops": fill + [{"op": "barrier", "ph": 1}] + a + [{"op": "len", "h": 0 if a[0]["op"] != "close" else 1}]},
+             {"phase": 0, "handles": ["ss", "sr", "ss"], "ops": [{"op": "barrier", "ph": 1}] + t + [{"op": "barrier", "ph": 2}]}]
+    st = {"spin_bias": 0.995, "p_switch": 0.1, "q_tick": 0.0, "tick_phase": 9, "lockspin_all": 1}
+    return {"cap": cap, "payload": rng.choice(["w1", "b3", "u8"]), "procs": procs, "strat": st}
+
+
+def gen_casrace(rng, combo=None):
+    """A sync / timed waiter is cut exactly before one of its atomic read-modify-write steps on its own signal (the
+    LOCKED -> LOCKED_STARVATION compare_exchange that precedes parking) while the event that completes or terminates it runs to
+    the end; or the completing thread is cut before its compare_exchange / final store on the waiter's signal."""
+    side, wkind, event = combo if combo else (rng.choice("sr"), rng.choice(["sync", "timed"]), rng.choice(["close", "last_drop", "peer", "peer_try"]))
+    cap = rng.choice([0, 1]) if side == "s" else 0
+    other = "r" if side == "s" else "s"
+    pre = [{"op": "try_send", "h": 0, "m": 100 + j} for j in range(cap)] if side == "s" else []
+    if side == "s":
+        w = {"op": "send", "h": 0, "m": 1} if wkind == "sync" else {"op": rng.choice(["send_timeout", "send_option_timeout"]), "h": 0, "m": 1, "d": 400}
+    else:
+        w = {"op": rng.choice(["recv", "iter_next"]), "h": 0} if wkind == "sync" else {"op": "recv_timeout", "h": 0, "d": 400}
+    procs = [{"phase": 0, "handles": [rng.choice(["s", "a"]) + side], "ops": pre + [w, {"op": "len", "h": 0}]}]
+    oh = rng.choice(["s", "a"]) + other
+    if event == "close":
+        ev = [{"op": "close", "h": 0}]
+    elif event == "last_drop":
+        ev = [{"op": "drop", "h": 0}]
+    elif event == "peer":
+        ev = [{"op": "recv", "h": 0}] if other == "r" else [{"op": "send", "h": 0, "m": 50}]
+    else:
+        ev = [{"op": "try_recv", "h": 0}] if other == "r" else [{"op": "try_send", "h": 0, "m": 50}]
+    # no barrier: under the solo freeze the waiter runs alone up to its cut point (it has registered by then), then the event runs
+    procs.append({"phase": 0, "handles": [oh], "ops": ev})
+    st = {"spin_bias": 0.995, "p_switch": 0.1, "q_tick": 0.0, "tick_phase": 9, "p_spurious": 0.0}
+    return {"cap": cap, "payload": rng.choice(["w1", "b3", "u8"]), "procs": procs, "strat": st}
+
+
+def casrace_combos():
+    return [(sd, wk, ev) for sd in "sr" for wk in ("sync", "timed") for ev in ("close", "last_drop", "peer", "peer_try")]
 
 
 def gen_mutex(rng, freeze=False):
